@@ -781,7 +781,7 @@ def render_inline(rng, n):
         return render_string(rng, n[1])
     if k == "i":
         if rng is not None and n[1] >= 0 and rng.random() < 0.1:
-            return rng.choice(["0x%x", "0o%o", "0b%b"]) % n[1]
+            return rng.choice([lambda x: "0x%x" % x, lambda x: "0o%o" % x, lambda x: "0b" + bin(x)[2:], lambda x: "+%d" % x])(n[1])
         return "%d" % n[1]
     if k == "f":
         return render_float(n[1])
